@@ -59,7 +59,25 @@ warnings.filterwarnings("ignore")
 BODIES = ["x", "x + 1", "x * 2", "x - 1", "(x, 0)", "x + 1 if a else x", "x + 2"]
 KBODIES = ["x + k", "x * k", "k"]
 NAMES = ["f", "g", "op"]
-STATICS = [0, 1, -3, 2.5, True, None, "a", "x y", "input0", "input1", 10 ** 12]
+# static values as written in a program spec (JSON); ["@f32", x] stands for numpy.float32(x)
+STATICS = [0, 1, -3, 2.5, True, None, "a", "x y", "input0", "input1", 10 ** 12,
+           "1", "None", "True", "2.5", ["@f32", 2.5], "a, b", "p=1", "-3"]
+# values that are different but print alike under str() (not under repr)
+TWINS = [[1, "1"], [None, "None"], [True, "True"], [2.5, "2.5", ["@f32", 2.5]], [-3, "-3"], [0, "0"], [10 ** 12, "1000000000000"]]
+
+
+def decode_static(v):
+    if isinstance(v, list) and len(v) == 2 and v[0] == "@f32":
+        import numpy as np
+        return np.float32(v[1])
+    return v
+
+
+def twin_of(rng, v):
+    for group in TWINS:
+        if any(vkey(v) == vkey(g) for g in group):
+            return rng.choice([g for g in group if vkey(g) != vkey(v)])
+    return None
 
 
 def spec_key(c):
@@ -197,6 +215,8 @@ BINARY = ["add", "subtract", "multiply", "divide", "power"]
 def make_payload(world, spec, Payload):
     fn = world.make(spec["fn"])
     args, kwargs, via = spec.get("args"), spec.get("kwargs"), spec.get("via", "plain")
+    args = None if args is None else [decode_static(v) for v in args]
+    kwargs = None if kwargs is None else {k: decode_static(v) for k, v in kwargs.items()}
     if via == "partial":
         return functools.partial(fn, *(args or []), **(kwargs or {}))
     if args is None and kwargs is None:
@@ -204,11 +224,49 @@ def make_payload(world, spec, Payload):
     return Payload(fn, args, kwargs)
 
 
-def vary(rng, prev, snaps, spec_pool):
+def vary(rng, prev, snaps, spec_pool, force=None):
     """a near copy of an earlier map/reduce: exactly one ingredient of the computation changed (or none)"""
     o = json.loads(json.dumps(prev))
-    how = rng.choice(["same", "value", "value", "key", "fn", "fn", "order", "order", "self"])
+    how = force or rng.choice(["same", "value", "value", "key", "fn", "fn", "order", "order", "self", "alike", "alike", "alike", "alike"])
     o["varied"] = how
+    if how == "alike":
+        # same callable, same inputs, a static argument replaced by a different value that PRINTS alike:
+        # another type ("1" for 1), another grouping ("a, b" for "a", "b"), positional "p=1" for keyword p=1
+        o.pop("via", None)
+        args, kw = list(o.get("args") or []), dict(o.get("kwargs") or {})
+        cands = [("arg", j) for j, v in enumerate(args) if twin_of(rng, v) is not None] + \
+                [("kw", k) for k, v in kw.items() if twin_of(rng, v) is not None]
+        if "a, b" in args:
+            cands.append(("split", args.index("a, b")))
+        if any(args[j:j + 2] == ["a", "b"] for j in range(len(args))):
+            cands.append(("merge", next(j for j in range(len(args)) if args[j:j + 2] == ["a", "b"])))
+        if kw and all(isinstance(v, (int, str)) and not isinstance(v, bool) for v in kw.values()):
+            cands.append(("positional", None))
+        if not cands:
+            # nothing to twin yet: leave a twinnable near copy behind for later variations
+            o["args"] = ["input0", rng.choice([1, None, 2.5, "a, b", True])]
+            o["varied"] = "alike-seed"
+            return o
+        kind, at = rng.choice(cands)
+        if kind == "arg":
+            args[at] = twin_of(rng, args[at])
+        elif kind == "kw":
+            kw[at] = twin_of(rng, kw[at])
+        elif kind == "split":
+            args[at:at + 1] = ["a", "b"]
+        elif kind == "merge":
+            args[at:at + 2] = ["a, b"]
+        else:
+            if "input0" not in args:
+                args = args + ["input0"]      # where Node.__init__ would have put the placeholder
+            args += [f"{k}={v}" for k, v in kw.items()]
+            kw = {}
+        o["args"], o["kwargs"] = (args or None), (kw or None)
+        if o["args"] is None:
+            o.pop("args")
+        if o["kwargs"] is None:
+            o.pop("kwargs")
+        return o
     if how == "value":
         if o.get("kwargs"):
             k = rng.choice(sorted(o["kwargs"]))
@@ -244,8 +302,11 @@ def vary(rng, prev, snaps, spec_pool):
 def choose_op(rng, snaps, spec_pool, earlier=()):
     """next operation, chosen on the current arrays"""
     prev = [o for o in earlier if o["op"] in ("map", "reduce") and o["self"] < len(snaps)]
+    twinnable = [o for o in prev if any(twin_of(rng, v) is not None or v == "a, b" for v in list(o.get("args") or []) + list((o.get("kwargs") or {}).values()))]
+    if twinnable and rng.random() < 0.2:
+        return vary(rng, rng.choice(twinnable), snaps, spec_pool, force="alike")
     if prev and rng.random() < 0.25:
-        rich = [o for o in prev if len(o.get("args") or []) > 1 or len(o.get("kwargs") or {}) > 1]
+        rich = [o for o in prev if len(o.get("args") or []) > 1 or o.get("kwargs")]
         return vary(rng, rng.choice(rich if rich and rng.random() < 0.5 else prev), snaps, spec_pool)
     i = rng.randrange(len(snaps))
     s = snaps[i]
@@ -553,8 +614,8 @@ def cval(v):
         if "'" in v or "\\" in v:
             raise ValueError("string outside the model: " + repr(v))
         return f"(VStr {cstr(v)})"
-    if isinstance(v, (bool, int, float)) or v is None:
-        return f"(VAtom {cstr(repr(v))})"
+    if isinstance(v, (bool, int, float)) or v is None or type(v).__module__ == "numpy":
+        return f"(VAtom {cstr(repr(v))})"      # numpy scalars print as one token too: np.float32(2.5)
     raise ValueError("static value outside the model: " + repr(v))
 
 
